@@ -238,6 +238,19 @@ func (x *Exec) call(in ssa.Instruction, c *ssa.CallCommon, res ssa.Value) {
 	pre := x.st.clone()
 	x.typeArgFn = callee
 	defer func() { x.typeArgFn = nil }()
+	if fc == nil && !c.IsInvoke() && x.inlinable(callee) && len(callee.Params) == len(args) {
+		results := x.inlineCall(callee, args)
+		tupI := resT.(*types.Tuple)
+		if res != nil && tupI.Len() > 0 {
+			if tupI.Len() == 1 {
+				x.vals[res] = results[0]
+			} else {
+				x.vals[res] = Val{Tup: results, GT: tupI}
+			}
+		}
+		x.atClauses("call-post", pats, args, results, pre, c)
+		return
+	}
 	if fc == nil {
 		if x.scalarArgsOnly(c) {
 			e.assumptionsUsed["uncontracted callee with scalar-only arguments has no effect on modelled state: "+key] = true
